@@ -1,4 +1,5 @@
 import NauyacaVerif.Srv.ConnMore
+import NauyacaVerif.Srv.PumpProof
 import NauyacaVerif.Gen.Params
 
 /-! # C04  No handler runs for a request the middleware chain refuses -/
@@ -48,4 +49,9 @@ theorem mwResponses_wf : ∀ m ∈ Gen.mwResponses, m.length ≥ 5 ∧ m.getLast
 
 example : (run { mw := true, upload := true, handler := .async, env := asciiEnv }
             [.data [103, 13, 10]]).hcalls = 0 := by decide
+
+/-- PyOpenSSL backend: the same gating holds for the inner protocol behind the pump -/
+theorem pump_handler_gated (cfg : Cfg) (evs : List PEv) (i : St) (hi : (pumpRun cfg evs).inner = some i) (hm : cfg.mw = true) :
+    i.hcalls + i.ucalls ≤ i.allowed := ((pumpRun_pinv cfg evs).innerInv i hi).1.gated hm
+
 end NauyacaVerif.C04
